@@ -9,6 +9,7 @@ def run(ctx):
     from vf.pyvc import crosscheck_sym
 
     crosscheck_sym.guard(ctx)  # the symbolic-shape tensor layer against real torch, before the clauses that rest on it
+    api.run_vcs(ctx, C03_vc.targets_p_vcs(ctx), {"C03.P.targets_list": "real optimal_completion source for SYMBOLIC numbers of prefixes, reference positions and batch elements, with _string_matching(return_mask=True) under contract: the list of a prefix holds exactly the tokens the mask flags, each once, in ascending order, then only the padding value"})
     api.run_vcs(ctx, C03_vc.p_vcs(ctx), {"C03.P.mask_row_minima": "real _string_matching(return_mask=True) source for SYMBOLIC shapes R, H, N: mask[j,r,n] <=> r < ref_len and prefix j exists and D(n,r,j) = min over r' <= ref_len (row invariant by induction over r, list-of-masks invariant, code minimum = spec minimum), 4 flag configurations"})
     api.run_vcs(ctx, C03_vc.vcs(ctx), {"C03.S.mask_row_minima": "real _string_matching(return_mask=True) source: mask[j,r,n] <=> r < ref_len and prefix j exists and D(r,j) is minimal over r' <= ref_len, for all contents/costs/eos"},
                 bounded="shapes R in 1..%d, H in 0..%d (N=2 when R+H<=2 else 1), flag grid; ALL token values, eos values, positive real cost triples" % ((2, 2) if ctx.quick else (3, 3)))
